@@ -171,6 +171,20 @@ where
     ) {
         let store = stores.get(store_id).unwrap();
         while let Ok(c) = commands_receiver.recv() {
+            #[cfg(similari_verif)]
+            let (verif_kind, verif_arg): (u64, u64) = match &c {
+                Commands::Drop(_) => (0, 0),
+                Commands::FindBaked(_) => (1, 0),
+                Commands::Distances(t, ..) => (2, t.track_id),
+                Commands::Lookup(..) => (3, 0),
+                Commands::Merge(dest_id, ..) => (4, *dest_id),
+            };
+            #[cfg(similari_verif)]
+            crate::verif_hooks::point(
+                "store.cmd.begin",
+                store_id as u64 | (verif_kind << 32),
+                verif_arg,
+            );
             match c {
                 Commands::Drop(channel) => {
                     let _r = channel.send(Results::Dropped);
@@ -301,6 +315,12 @@ where
                     }
                 }
             }
+            #[cfg(similari_verif)]
+            crate::verif_hooks::point(
+                "store.cmd.end",
+                store_id as u64 | (verif_kind << 32),
+                verif_arg,
+            );
         }
     }
 
@@ -477,6 +497,9 @@ where
         let tracks_vec = self.fetch_tracks(tracks);
 
         let res = self.foreign_track_distances(tracks_vec.clone(), feature_class, only_baked);
+
+        #[cfg(similari_verif)]
+        crate::verif_hooks::point("store.owned.between", tracks_vec.len() as u64, 0);
 
         for t in tracks_vec {
             self.add_track(t).unwrap();
